@@ -183,6 +183,14 @@ def c01_family(tier, n):
     for sc in [x for x in out if x['name'].startswith(('join2var/', 'join2chain/'))]:
         out.append({**sc, 'name': sc['name'].replace('/', '-rev/', 1), 'filters': list(reversed(sc['filters']))})
 
+    # a load-balanced stage upstream of a tee-rejoin (frames carry the 'balanced' mark through the rejoin)
+    for speeds in [(0, 0), (0, 40)]:
+        for beh in ['skip1', 'pass']:
+            fs = balance(n + 1, speeds, split_period=10)
+            fs[-1] = {**relay('join', [f'w{i}' for i in range(len(speeds))]), 'config': {'sources_balance': True}}
+            fs += [relay('b1', ['join'], beh), relay('b2', ['join']), sink('snk', ['b1', 'b2;main>other'])]
+            out.append(scn(f'bal-rejoin/{speeds}/{beh}', fs, quiet_ms=600))
+
     # rejoin with an ephemeral side consumer on the splitter
     for side in ['?', '??']:
         for b1 in ['pass', 'skip1']:
@@ -363,7 +371,8 @@ def c02_content_family(tier):
     out    = []
     tsets  = [['main'], ['a'], ['_h'], ['main', 'a'], ['main', '_h'], ['a', '_h'], ['main', 'a', '_h'],
               ['ab', 'a'], ['a', 'ab', 'main'], ['main_x', 'main', '_hh', '_h']]       # names that are prefixes of one another
-    subs   = ['src', 'src;', 'src;a', 'src;a>b', 'src;>b', 'src;_h', 'src;*', 'src;a;_h>x']
+    subs   = ['src', 'src;', 'src;a', 'src;a>b', 'src;>b', 'src;_h', 'src;*', 'src;a;_h>x',
+              'src;a>main;main>b', 'src;main>a;a>main']       # a destination that is also a subscribed source name (chain / swap)
     n      = 6
 
     for ts in tsets:
@@ -372,6 +381,13 @@ def c02_content_family(tier):
                 {**src(n, required='snk', topics=ts), 'payload': {'rotate': True}},
                 {**sink('snk', [sub]), 'log_content': True}]))
             out.append(s)
+
+    # a camera-style source that overwrites one image buffer per topic for every frame, consumers of different speeds
+    for ts in [['main'], ['main', 'a']]:
+        for slow in [0, 30, 150]:
+            out.append(timely(scn(f'content-reuse/{"+".join(ts)}/slow{slow}', [
+                {**src(n, required='snk', topics=ts), 'payload': {'reuse': True}},
+                {**sink('snk', ['src'], [('slow', slow)] if slow else []), 'log_content': True}])))
 
     return out
 
@@ -778,6 +794,13 @@ def c18_family(tier):
                                ('raise-process', {'faults': [{'at': 'process', 'k': 12, 'what': 'raise'}]}, {}, 'error'),
                                ('stop-evt', {}, {'stop_at': [{'f': 'flt', 'at_ms': 1200}]}, 'clean')]:
             one(f'slow-backend{ms}/{nm}', fp, {**ex, 'lineage': {'interval': 1, 'emit_ms': {'RUNNING': ms}}, 'horizon_ms': 1200 + 2 * ms + 2500}, kd, 'one')
+
+    # interrupted runs: KeyboardInterrupt / a foreign sys.exit() out of process() or setup() (run() raises: not a clean end)
+    for what in ['interrupt', 'sysexit']:
+        one(f'{what}-process', {'faults': [{'at': 'process', 'k': 4, 'what': what}]}, {}, 'error', 'short')
+        one(f'{what}-process', {'faults': [{'at': 'process', 'k': 12, 'what': what}]}, {}, 'error', 'one')
+
+    one('interrupt-setup', {'faults': [{'at': 'setup', 'what': 'interrupt'}]}, {}, 'error', 'short')
 
     one('exit-setup', {'faults': [{'at': 'setup', 'what': 'exit'}]}, {}, 'clean', 'short')
     one('raise-setup', {'faults': [{'at': 'setup', 'what': 'raise'}]}, {}, 'error', 'short')
